@@ -162,6 +162,9 @@ CntChecks(ln, e, res, dcFromApp) ==
 \* refused send: the refused call left a trace in the buffered state (C03)
 UTag(e) == IF hist[e].refused THEN "C03.trace" ELSE "MM"
 
+\* how the model's lower layer came to be closed when a receive reports end-of-stream with data left
+Via(e, newep, cr) == IF eps[e].l1 = "closed" \/ (newep.l1 = "closed" /\ cr.werr = EPIPE) THEN "epipe" ELSE "other"
+
 \* ---- the step ----------------------------------------------------------------
 Reset(ln) ==
   /\ tp' = (IF ln.tp = "utlst" THEN "tls" ELSE IF ln.tp = "utls" THEN "ux" ELSE ln.tp)
@@ -241,7 +244,10 @@ StepReceive(ln) ==
     IN Apply(ln, e, res.ep, frames, nn, hcs,
              RetChecks(ln, res, tag)
              \o <<Chk(res.wused = cr.wu, UTag(e), res.wused, cr.wu),
-                  Chk(res.rused = cr.ru, "MM", res.rused, cr.ru)>>
+                  Chk(res.rused = cr.ru, "MM", res.rused, cr.ru),
+                  \* C06: end-of-stream is reported only after every complete message that had arrived
+                  Chk(~(ln.ret = 0 /\ h \in 1..MaxMsg /\ ln.av[e] >= 0 /\ res.ep.rbuf + ln.av[e] >= HdrLen + h),
+                      "C06.drain", Via(e, res.ep, cr), ln.av[e])>>
              \o CntChecks(ln, e, res, FALSE))
   ELSE IF Stream(tp) THEN
     LET res == BtcpReceive(eps[e], ln.cap, cr.rc, cr.rterm)
@@ -249,7 +255,8 @@ StepReceive(ln) ==
                ELSE IF res.ret = -1 /\ ConnErr(res.err) THEN "C06.errno"
                ELSE IF res.ret = 0 THEN "C06.drain" ELSE "C02.prefix"
     IN Apply(ln, e, res.ep, frames, nrcv, hcs,
-             RetChecks(ln, res, tag) \o <<Chk(res.used = cr.ru, "MM", res.used, cr.ru)>>
+             RetChecks(ln, res, tag) \o <<Chk(res.used = cr.ru, "MM", res.used, cr.ru),
+                  Chk(~(ln.ret = 0 /\ ln.av[e] > 0), "C06.drain", Via(e, res.ep, cr), ln.av[e])>>
              \o CntChecks(ln, e, res, FALSE))
   ELSE
     LET L == IF cr.ru >= 1 THEN ln.k[5] ELSE 0
